@@ -825,8 +825,11 @@ def r_bounded_read(ctx):
                     cls = read_class(ctx, e.d["fn"], 0)
                     prev = [x for x in p.events if x.kind == "call" and x.seq < e.seq and any(k == "seek" for k, ks in x.d["effects"] if S in ks)]
                     tgt = unmut(prev[-1].d["args"][1]) if prev else None
-                    off_ok = tgt is not None and is_call_to(tgt, lambda s: s == "std::io::SeekFrom::Start") and tgt[2][0] == ("proj", V("param:#3"), 0)
-                    len_ok = cls[0] == "bounded" and (cls[1] == 1 or (isinstance(cls[1], tuple) and cls[1][0] == "via" and cls[1][2] == 1)) and len(args) > 1 and args[1] == ("proj", V("param:#3"), 1)
+                    # the (offset, length) pair the walker is called with: its one parameter of type (u64, u64), destructured in the signature or in the body
+                    pairs = [V("param:" + n) for n, prm in zip(fa.param_names, f["params"]) if (prm["ty"] or "").replace(" ", "") == "(u64,u64)"]
+                    off_ok = tgt is not None and is_call_to(tgt, lambda s: s == "std::io::SeekFrom::Start") and any(unmut(tgt[2][0]) == ("proj", P_, 0) for P_ in pairs)
+                    len_ok = cls[0] == "bounded" and (cls[1] == 1 or (isinstance(cls[1], tuple) and cls[1][0] == "via" and cls[1][2] == 1)) and len(args) > 1 and \
+                        any(args[1] == ("proj", P_, 1) and unmut(tgt[2][0]) == ("proj", P_, 0) for P_ in pairs) if off_ok else False
                     obs.append(Ob("R-BOUNDED-READ", fn, "walker: seek(Start(dir_offset)) then decode bounded by dir_length", off_ok and len_ok,
                                   "seek = %s; decoder class = %s; length arg = %s" % (tstr(tgt)[:60] if tgt else "none", cls, tstr(args[1])[:60] if len(args) > 1 else "?"), e.loc()))
                     break
